@@ -293,7 +293,11 @@ Proof.
 Qed.
 
 Lemma NA_load_dc : NA load_dc.
-Proof. apply NA_upd. intro s; destruct (dcache s); simpl; repeat split; auto. Qed.
+Proof.
+  intros s s' r H. unfold load_dc in H. destruct (dcache s).
+  - revert H. generalize s s' r. apply NA_ret.
+  - revert H. generalize s s' r. apply NA_ev, NA_upd. intro a; simpl; repeat split; auto.
+Qed.
 
 Ltac neutral := let s := fresh in intro s; unfold on_cur; simpl; repeat split; auto using mem_add_mono.
 
@@ -659,10 +663,10 @@ Qed.
 Lemma FAc_ingest : forall mo d, FAc PT (exec_op shipped (Ingest mo d)).
 Proof.
   intros mo d; simpl; unfold do_ingest. apply FAc_butler_txn.
-  - apply FA_fresh. apply FA_guard_pre. apply FAc_FA, FAc_with_ds.
+  - apply FA_bind; [apply FA_of_NA, NA_load_dc|]. apply FA_fresh. apply FA_guard_pre. apply FAc_FA, FAc_with_ds.
     apply FA_bind; [apply FA_transfer | apply FA_of_NA, NA_stored_rows].
   - repeat first [ apply WB_bind | apply WB_ev | apply WB_ret | apply WB_guard | apply WB_with_ds | apply WB_transfer
-                 | apply WB_stored_rows | (apply WB_upd; keeps) ].
+                 | apply WB_load_dc | apply WB_stored_rows | (apply WB_upd; keeps) ].
 Qed.
 
 (* ---------------------------------------------------------------------------------------------------------- *)
@@ -812,7 +816,7 @@ Lemma release_fault_inner_p :
   exists j, let '(s', r) := exec shipped (PBlock [POp (Put 0 1)]) (with_fuse j s_in) in
             r = Raised false /\ ds (cur s') = [0] /\ ds (cur s_in) = [] /\ fget 0 (fs s') = Some 1 /\ fs s_in = [] /\
             cfault s' = true.
-Proof. exists 8%nat. vm_compute. repeat split. Qed.
+Proof. exists 9%nat. vm_compute. repeat split. Qed.
 
 (* the same seen from outside: the inner block raises, the program catches it, the outer block commits *)
 Definition prog_rel := PBlock [PTry (PBlock [POp (Put 0 1)]); POp (Assoc 0)].
@@ -820,7 +824,7 @@ Definition prog_rel := PBlock [PTry (PBlock [POp (Put 0 1)]); POp (Assoc 0)].
 Lemma release_fault_program_p :
   exists j, let '(s', r) := exec shipped prog_rel (with_fuse j (init e0)) in
             r = Normal /\ fuse s' = None /\ cfault s' = true /\ ds (cur s') = [0] /\ tags (cur s') = [0] /\ fget 0 (fs s') = Some 1.
-Proof. exists 9%nat. vm_compute. repeat split. Qed.
+Proof. exists 10%nat. vm_compute. repeat split. Qed.
 
 (* why the statements are extensional in the staging area: an undone Move ingest re-creates the staged file at the
    front of the association list *)
